@@ -135,6 +135,118 @@ def parse_block(text, counter):
     return out
 
 
+HELPERS = {}     # helper macros of the same file: name -> ([param names], body text); filled by parse()
+
+
+def find_helper_macros(src):
+    """single-arm `macro_rules! name { ($a:frag, $b:frag) => {{ body }}; }` whose matcher is a plain
+    comma-separated list of fragments: these can be expanded textually at their call sites"""
+    out = {}
+    for m in re.finditer(r"macro_rules!\s*(\w+)\s*\{", src):
+        name = m.group(1)
+        if name == "fake":
+            continue
+        i = src.find("{", m.start())
+        j = match_delim(src, i)
+        if j is None or j < 0:
+            continue
+        body = src[i + 1:j].strip()
+        if not body.startswith("("):
+            continue
+        pe = match_delim(body, 0)
+        matcher = body[1:pe]
+        rest = body[pe + 1:].lstrip()
+        if not rest.startswith("=>"):
+            continue
+        rest = rest[2:].lstrip()
+        if not rest or rest[0] not in "{(":
+            continue
+        be = match_delim(rest, 0)
+        if rest[be + 1:].strip().strip(";").strip():
+            continue                     # more than one arm
+        params = []
+        ok = True
+        for part in matcher.split(","):
+            mp = re.fullmatch(r"\s*\$(\w+)\s*:\s*(expr|ty|ident|path|tt|literal)\s*", part)
+            if not mp:
+                ok = False
+                break
+            params.append(mp.group(1))
+        if ok and params:
+            out[name] = (params, rest[1:be])
+    return out
+
+
+def split_top_commas(text):
+    parts, depth, cur = [], 0, ""
+    for ch in text:
+        if ch in "([{<" and not (ch == "<" and cur.endswith("-")):
+            depth += 1 if ch != "<" else 0
+        if ch in ")]}":
+            depth -= 1
+        if ch == "," and depth == 0:
+            parts.append(cur)
+            cur = ""
+        else:
+            cur += ch
+    parts.append(cur)
+    return [x.strip() for x in parts]
+
+
+def inline_helpers(text, depth=0):
+    """expand `$crate::name!(args)` / `name!(args)` for the helper macros found in the file"""
+    if depth > 3 or not HELPERS:
+        return text
+    for name, (params, body) in HELPERS.items():
+        while True:
+            m = re.search(r"(?:\$crate\s*::\s*)?\b" + re.escape(name) + r"\s*!\s*\(", text)
+            if not m:
+                break
+            oi = text.find("(", m.end() - 1)
+            ce = match_delim(text, oi)
+            args = split_top_commas(text[oi + 1:ce])
+            if len(args) != len(params):
+                return text
+            b = body
+            for pn, a in zip(params, args):
+                b = re.sub(r"\$" + pn + r"\b", lambda _m, a=a: a, b)
+            text = text[:m.start()] + b + text[ce + 1:]
+    return text
+
+
+def hoist_block_in_tuple(na):
+    """`({ let ..; let ..; expr }, v)` -> `let ..; let ..; (expr, v)` (a helper macro's block as the first
+    component of the result pair)"""
+    m = re.match(r"^\(\s*\{", na)
+    if not m:
+        return na
+    oi = na.find("{")
+    ce = match_delim(na, oi)
+    if ce is None or ce < 0:
+        return na
+    rest = na[ce + 1:].strip()
+    mv = re.fullmatch(r",\s*(\w+)\s*\)", rest)
+    if not mv:
+        return na
+    blk = na[oi + 1:ce].strip()
+    # split the block into its `let` statements and the final expression
+    stmts, depth, cur = [], 0, ""
+    for ch in blk:
+        if ch in "({[":
+            depth += 1
+        elif ch in ")}]":
+            depth -= 1
+        if ch == ";" and depth == 0:
+            stmts.append(cur.strip())
+            cur = ""
+        else:
+            cur += ch
+    final = cur.strip()
+    if not final or not all(x.startswith("let ") for x in stmts):
+        return na
+    return "; ".join(stmts) + "; (" + final + ", " + mv.group(1) + ")"
+
+
 def resolve(expr, lets, depth=0):
     """replace let-bound names by their (resolved) right-hand sides"""
     if depth > 6:
@@ -208,7 +320,7 @@ def parse_trans(tr):
             else:
                 res["else"] = "ElseBr.unknown"
     # tail: a typed coercion of the generated function, then (FuncPtr::new(ptr, type_name), verifier)
-    na = norm(after)
+    na = norm(hoist_block_in_tuple(norm(inline_helpers(after))))
     res["coerce_kind"] = "FnKind.unknown"
     res["coerce_ret"] = "RetTy.unknown"
     res["tail_ok"] = False
@@ -249,6 +361,8 @@ def parse(repo):
     """list of dicts {line, matcher(dict|None), trans(dict|None)} or None if the macro is absent"""
     p = os.path.join(repo, "src", "interface", "macros.rs")
     src = strip_comments(open(p).read()) if os.path.exists(p) else ""
+    HELPERS.clear()
+    HELPERS.update(find_helper_macros(src))
     arms = parse_arms(src)
     if arms is None:
         return None
@@ -263,6 +377,8 @@ def parse(repo):
 def generate(repo):
     p = os.path.join(repo, "src", "interface", "macros.rs")
     src = strip_comments(open(p).read()) if os.path.exists(p) else ""
+    HELPERS.clear()
+    HELPERS.update(find_helper_macros(src))
     arms = parse_arms(src)
     L = ["/- GENERATED by translate/arms.py from /repo/src/interface/macros.rs — do not edit. -/",
          "namespace Inj.Generated.FakeArms", "",
